@@ -458,3 +458,21 @@ def check_itp(mols, loaded):
         if got != want:
             return 'interactions of %s: declared %r loaded %r' % (m['name'], want, got)
     return None
+
+
+ITP_FIXED = {'bonds': 2, 'constraints': 2, 'angles': 3, 'dihedrals': 4, 'position_restraints': 1, 'pairs': 2, 'pairs_nb': 2, 'settles': 1,
+             'virtual_sites1': 2, 'virtual_sites2': 3, 'virtual_sites3': 4, 'virtual_sites4': 5, 'distance_restraints': 2,
+             'dihedral_restraints': 4, 'orientation_restraints': 2, 'angle_restraints': 4, 'angle_restraints_z': 2}
+
+
+def inject_itp_fault(rng, mols):
+    """an ITP file in which one line of a fixed-size directive has fewer columns than the directive has atoms"""
+    lines = print_itp(mols)
+    m = rng.choice(mols)
+    typ = rng.choice(sorted(t for t, n in ITP_FIXED.items() if n >= 2))
+    na = ITP_FIXED[typ]
+    natoms = len(m['atoms'])
+    short = ' '.join(str(rng.randint(1, natoms)) for _ in range(rng.randint(1, na - 1)))
+    start = lines.index('%s %d' % (m['name'], m['nrexcl']))
+    end = start + 2 + natoms
+    return lines[:end] + ['[ %s ]' % typ, short] + lines[end:], typ
